@@ -28,7 +28,8 @@ fn check_quant(st: &mut Stats, env: &BDDEnv<usize>, uni: &[usize], f: &(D, Tt), 
         st.bump(kind);
         let case = || json!({"kind": kind, "f": f.1.hex(), "universe": labels_json(uni), "list": labels_json(list)});
         util::budget(20_000_000, 1000);
-        let r = match guarded(|| if kind == "exists" { env.exists(list.to_vec(), Rc::clone(&f.0)) } else { env.all(list.to_vec(), Rc::clone(&f.0)) }) {
+        let handed = hand_over(&f.0, st.evals);
+        let r = match guarded(move || if kind == "exists" { env.exists(list.to_vec(), handed) } else { env.all(list.to_vec(), handed) }) {
             Ok(r) => r,
             Err(c) => {
                 st.violate("c04.panic", format!("C04:{}:{}", kind, c.signature()), format!("{}({:?}, {}) did not return: {:?}", kind, list, short(&f.0), c), case());
